@@ -94,8 +94,11 @@ def clausesFloat (a b : Cap) (dcNonneg : Bool) (ps : List V3)
   let inb := inFloat b
   -- decisions at tangency: judged up to the rounding allowance `tol`
   [("cap-contains-true-but-point-missing", !ci || ps.all fun p => !inb p || ina p || nearOrIn a p),
+   -- not judged when the two centres are within ~0.1 rad of antipodal: the squared-chord representation of their distance has
+   -- a DOCUMENTED measurement error of up to sqrt(2e-15) = 4.5e-8 rad there (s1/chordangle.go), far more than `tol`
    ("cap-intersects-false-but-common-point",
-      x || ps.all fun p => !(ina p && deepIn b p) && !(deepIn a p && inb p)),
+      x || decide (d2Exact a.center b.center > atScale2 ⟨0x400FEB851EB851EC⟩) ||
+        ps.all fun p => !(ina p && deepIn b p) && !(deepIn a p && inb p)),
    -- a point within rounding distance of the common boundary may belong to neither (tolerance, see `tol`)
    ("cap-complement-does-not-cover", ps.all fun p => ina p || inFloat cpl p || nearOrIn a p),
    ("cap-addCap-misses-point-beyond-rounding", ps.all fun p => !(ina p || inb p) || nearOrIn ac p),
